@@ -25,9 +25,13 @@ def mc_configs(tier):
                 dict(MC_BASE, NT=3, ProgKeys="{1}", ProgContents='{"A", "C"}', WithCleanup="TRUE", WithCkpt="FALSE", WithReads="FALSE")]
 
 
-def run_mc(tier, invariants, liveness=False):
+def run_mc(tier, invariants, liveness=False, prop=None):
     tot = {"states": 0, "transitions": 0, "violated": [], "configs": []}
-    for c in mc_configs(tier):
+    cfgs = mc_configs(tier)
+    if prop == "C20":
+        # C20's own model is MCSteps (sequential half); here only the kill-safety of the durable side under interleaving
+        cfgs = [dict(MC_BASE, WalN=1, ProgKeys="{1}", WithReads="FALSE")] if tier == "quick" else cfgs[:3]
+    for c in cfgs:
         extra = ["VIEW View"]
         out = tlc("MCConc", cfg_text(c, invariants=invariants, extra=extra).replace("CHECK_DEADLOCK FALSE", "CHECK_DEADLOCK TRUE"),
                   workers=8, timeout=2400, heap="12g", name="mcc")
@@ -199,7 +203,7 @@ def add_guided(sc, prop, tier):
     return sum(len(g["scheds"]) for g in groups.values())
 
 
-PROP_INV = {"C20": [], "C07": ["Inv_C07", "Inv_C04"], "C04": ["Inv_C04", "Inv_C07"], "C05": ["Inv_C05"], "C15": ["Inv_C15"], "C08": ["Inv_C04", "Inv_C07"], "C13": ["Inv_C04", "Inv_C07"]}
+PROP_INV = {"C20": ["Inv_C03x"], "C07": ["Inv_C07", "Inv_C04"], "C04": ["Inv_C04", "Inv_C07", "Inv_C03x"], "C05": ["Inv_C05"], "C15": ["Inv_C15"], "C08": ["Inv_C04", "Inv_C07"], "C13": ["Inv_C04", "Inv_C07"]}
 # C08 (clean-up never harms live data / a put that is committing) and C13 (an abandoned transaction does not disturb a
 # concurrent one on the same key) are judged on their own program classes with the C04/C07 conjuncts of TraceConc
 # OPFAIL: a put / remove / checkpoint / clean-up call returned an error although nothing was injected
@@ -228,7 +232,7 @@ def run_conc_check(prop, tier, replay=None, merge=False):
         scen = [json.load(open(replay))]
         nguided = 0
     else:
-        mc = run_mc(tier, PROP_INV[prop], liveness=(prop == "C15")) if PROP_INV[prop] else {"states": 0, "transitions": 0, "violated": [], "configs": []}
+        mc = run_mc(tier, PROP_INV[prop], liveness=(prop == "C15"), prop=prop) if PROP_INV[prop] else {"states": 0, "transitions": 0, "violated": [], "configs": []}
         log(f"[{prop}] MCConc: {mc['states']} distinct states, violated={mc['violated']}")
         scen = build_scenarios(prop, tier, rnd)
         nguided = add_guided(scen, prop, tier) if prop in ("C04", "C05", "C07", "C15") else 0
